@@ -191,6 +191,15 @@ def capped(iterable, cap=3000):
     return out
 
 
+def listing_diff_is_order_only(a, b):
+    """two 'pols x,y,z' outputs (a listing or a page) that hold the same number of policies: which policies land on
+    which page, and in what order, depends on the listing order of the backend, which no property prescribes"""
+    if not (isinstance(a, str) and isinstance(b, str) and a.startswith('pols ') and b.startswith('pols ')):
+        return False
+    xa, xb = [x for x in a[5:].split(',') if x], [x for x in b[5:].split(',') if x]
+    return len(xa) == len(xb)
+
+
 # ------------------------------------------------------------------ results
 
 class Failure:
